@@ -10,6 +10,14 @@ CLAIMS = [
         "note": "Values beyond 30000 are compared in F_p for 4 primes near 2^15 (exact acceptance, ~1e-18 miss probability); exponents beyond |n| = 99 are outside the explored domain.",
     },
     {
+        "property_id": "C06",
+        "level": "model_checking",
+        "technique": "TLA+ transcription of the hand-written parser and the evaluator's tree walk (Parser.tla) model-checked with TLC against the declarative grammar (Grammar.tla) on every token string up to a length; grammar-side enumeration of operator sequences x parenthesisations x blank layouts (MC_Eval.tla); every rendering replayed into the real library, and real tokens / syntax trees / values validated by TLC against Trace_Parse.tla and Trace_Lang.tla",
+        "text": "MC_Parser.tla: Lossless, Refines and Sound hold for all token strings <= 6 (arithmetic alphabet), <= 5 (quantities/casts, calls) and <= 4 (all 17 token kinds) in the quick tier (8/7/7/5 thorough); each of the five repaired parser defects, re-created by an as-pinned constant, is rejected. MC_Eval.tla enumerates every operator sequence up to length 4 (5 thorough) over + - * / ^ to with every placement of parentheses and blank layouts and checks that the grammar and the parser transcription read each rendering back as the intended tree. Each rendering is evaluated by the real library: Trace_Parse.tla requires the real token list and the real syntax tree to be the ones the specification builds and evaluates the grammar's reading on the real tree; Trace_Lang.tla compares the value. Random deeper expressions with calls, quantities and casts add breadth.",
+        "design_ref": "DESIGN.md section 5/C06",
+        "note": "A differing value is attributed to grouping only if every operator application recorded by the hook agrees with the specification; exponents are replayed up to two digits only.",
+    },
+    {
         "property_id": "C14",
         "level": "model_checking",
         "technique": "TLA+ model of index building (IndexBuild.tla: workers x documents x tie sets) checked with TLC; recorded session histories with visible tie sets validated by TLC against Trace_IndexBuild.tla",
